@@ -305,10 +305,18 @@ func genC04(t *rapid.T) c04Case {
 			head = vGenName(t, true, "head")
 		}
 		ne := rapid.IntRange(0, 6).Draw(t, "nent")
+		wide := rapid.IntRange(0, 24).Draw(t, "wide") == 0
+		if wide {
+			ne = rapid.IntRange(20, 300).Draw(t, "nentwide") // records with many distinct names, some of them repeated
+		}
 		var lines []vLine
 		for k := 0; k < ne; k++ {
 			var nm string
-			if rapid.IntRange(0, 3).Draw(t, "fresh") == 0 {
+			if wide && len(lines) > 0 && rapid.IntRange(0, 5).Draw(t, "widedup") == 0 {
+				nm = lines[rapid.IntRange(0, len(lines)-1).Draw(t, "widedupi")].Name
+			} else if wide {
+				nm = fmt.Sprintf("item %d", rapid.IntRange(0, 400).Draw(t, "widei"))
+			} else if rapid.IntRange(0, 3).Draw(t, "fresh") == 0 {
 				nm = vGenName(t, true, "ename")
 			} else {
 				nm = pool[rapid.IntRange(0, len(pool)-1).Draw(t, "ei")]
